@@ -6,6 +6,7 @@ import (
 	"os"
 	"strings"
 	"time"
+	"verif/checker/internal/absint"
 
 	"verif/checker/internal/core"
 	"verif/checker/internal/fam"
@@ -164,6 +165,18 @@ func runMemberOpt(c *core.Ctx, mb member, rules map[string]bool, budget int, siz
 			seenAssume(c, a)
 		}
 		for _, e := range w.Ext {
+			c.Trust("summary: " + e)
+		}
+	}
+}
+
+// noteRuns carries the assumptions and the exercised library summaries of abstract unit runs into the evidence.
+func noteRuns(c *core.Ctx, runs []absint.RunResult) {
+	for _, r := range runs {
+		for _, a := range r.Assumptions {
+			seenAssume(c, a)
+		}
+		for _, e := range r.Externals {
 			c.Trust("summary: " + e)
 		}
 	}
